@@ -697,6 +697,72 @@ def in_loop(body, bb):
     return any(bb in blocks for h, blocks in natural_loops(body))
 
 
+def reglue_body(ctx, g):
+    """reglue itself: every listed pair (d, e) is entered in BOTH directions - (d, e) and (e, d) - so that the new operation is an involution;
+    the rebuilt operation answers the new partner exactly for the re-glued index AND a listed chamber (decided as a truth table over both tests),
+    the old ds.op(i, d) otherwise; the set is rebuilt with the old size and dimension."""
+    ctx.clauses.append("reglue: pairs entered in both directions; new partner iff i == index and d listed, else the old operation; same size and dimension (T4)")
+    b = ctx.body(M + "reglue")
+    cls = ctx.facts.closures.get(M + "reglue", [])
+    ctx.scan([b] + [ctx.facts.bodies[c] for c in cls])
+    bad = None
+    both = False
+    table_ok = None
+    for c in cls:
+        cb = ctx.facts.bodies[c]
+        r = strip(norm(cb.local_origin(0), g))
+        if r[0] == "agg" and r[1] == "array" and len(r[2]) == 2:
+            tup = []
+            for x in r[2]:
+                x = strip(x)
+                tup.append(tuple(str(strip(y)[2]) if strip(y)[0] == "field" else "?" for y in x[2]) if x[0] == "agg" and x[1] == "tuple" else None)
+            both = sorted(t for t in tup if t) == [("0", "1"), ("1", "0")]
+        somes = [dbb for dbb, d in cb.all_defs_origins(0) if strip(norm(d, g))[0] == "agg" and strip(norm(d, g))[1].endswith("Option::Some")]
+        olds = [dbb for dbb, d in cb.all_defs_origins(0) if is_call(strip(norm(d, g)), "DSet::op")]
+        if somes and olds:
+            i_, d_ = ("param", 2, cb.debug.get(2, "")), ("param", 3, cb.debug.get(3, ""))
+            newv = strip(norm(dict(cb.all_defs_origins(0))[somes[0]], g))
+            look = [y for y in subterms(newv) if is_call(y, "::get")]
+            if not (look and strip(look[0][2][1]) == d_):
+                bad = "the new partner is not looked up for the chamber asked about"
+            oldv = strip(norm(dict(cb.all_defs_origins(0))[olds[0]], g))
+            if not bad and [strip(x) for x in oldv[2][1:]] != [i_, d_]:
+                bad = "the old operation is not asked for (i, d)"
+            def val(same, listed):
+                def f(y):
+                    y = strip(y)
+                    if y == i_:
+                        return 7
+                    if y[0] == "field" and strip(y[1])[0] == "param" and strip(y[1])[1] == 1 and str(y[2]).isdigit() and cb.local_ty_of_upvar(int(str(y[2]))) in ("usize", "&usize"):
+                        return 7 if same else 8
+                    if is_call(y, "::contains_key") or is_call(y, "Option::<T>::is_some"):
+                        return listed
+                    return None
+                return f
+            table_ok = True
+            for same in (0, 1):
+                for listed in (0, 1):
+                    rn = bool(reachable_sites(cb, g, set(somes), val(same, listed)))
+                    ro = bool(reachable_sites(cb, g, set(olds), val(same, listed)))
+                    want = bool(same and listed)
+                    if (rn, ro) != (want, not want) and not bad:
+                        bad = "operation %s the re-glued one, chamber %s: the answer is %s" % ("is" if same else "is not", "listed" if listed else "not listed",
+                                                                                              "the new partner" if rn and not ro else "the old operation" if ro and not rn else "undetermined")
+    if not bad and not both:
+        bad = "a pair (d, e) is not entered as (d, e) and (e, d): the new operation is not an involution"
+    if not bad and table_ok is None:
+        bad = "the rebuilt operation (new partner / old operation) was not found"
+    bs = [[strip(norm(b.origin(x), g)) for x in t["args"]] for bi, t in b.calls("build_set")]
+    ds = ("param", 1, b.debug.get(1, ""))
+    def dimq(t, n):
+        t = strip(t)
+        return (t[0] == "field" and strip(t[1]) == ds and t[2] == n) or (is_call(t, "::" + n) and strip(t[2][0]) == ds)
+    if not bad and not (len(bs) == 1 and dimq(bs[0][0], "size") and dimq(bs[0][1], "dim")):
+        bad = "the set is not rebuilt with build_set(ds.size(), ds.dim(), ..)"
+    ctx.ob("T4-reglue-body", b.name, "both directions / new partner iff re-glued index and listed / same extent", "ok" if not bad else "violation",
+           "(d, e) and (e, d); Some(paired[d]) iff i == index && listed, else ds.op(i, d); build_set(size, dim)" if not bad else bad)
+
+
 def network_cut_flow(ctx, g):
     """network_cut (which face boundary the glued face is cut along): source and sink are two fresh vertex numbers above every skeleton vertex;
     the cut is the minimum vertex cut of network_edges(.., source, sink) between them; the marked chambers are the (1, 2)-orbits (the vertices)
@@ -963,6 +1029,7 @@ def run(ctx):
     collapse_shape(ctx, g)
     collapse_sites(ctx, g)
     network_cut_flow(ctx, g)
+    reglue_body(ctx, g)
     ctx.floor("chamber-indexed tables in collapse / make_skeleton", chamber_tables(ctx, "T4-chamber-table", ctx.body(M + "collapse"), g) + chamber_tables(ctx, "T4-chamber-table", ctx.body(M + "make_skeleton"), g), 3)
     for bi, t in mi:
         every_iteration_reaches(ctx, "T3-merge-every-step", ma, bi, "step-loop->op(&ds)", "some step of merge_all's table is skipped")
